@@ -76,3 +76,60 @@ package mem
 //@ spec func idOfElem(x *queue.Elem) uint16 = x.MessageWithID.(type *queue.Publish) ? x.MessageWithID.(*queue.Publish).Message.PacketID : x.MessageWithID.(*queue.Pubrel).PacketID
 //@ loop 1 invariant qOK(q) && unread == q.current && (e == nil || inList(q.l, e)) && (e != nil && unread != nil ==> e.$pos <= unread.$pos)
 //@ loop 1 invariant forall f *list.Element :: f.Value == old(f.Value)
+
+// ReadInflight: after a re-initialisation without Clean Start the in-flight entries (those that carry a packet
+// identifier) are replayed first: the cursor only moves forward over entries with a non-zero identifier, every
+// entry handed out has a non-zero identifier, at most maxSize are handed out, nothing is added or removed and no
+// identifier changes.
+//@ func (*Queue).ReadInflight
+//@ props C10 C03
+//@ requires [C10] qOK(q)
+//@ modifies q.inflightDrained, q.current, all(queue.Elem.Expiry), allelems(*queue.Elem)
+//@ ensures [C10] err == nil && qOK(q) && q.l.$len == old(q.l.$len) && (forall e *list.Element :: inList(q.l, e) == old(inList(q.l, e)))
+//@ ensures [C10] len(rs) <= int(maxSize) || len(rs) == 0
+//@ ensures [C10] forall k int :: 0 <= k && k < len(rs) ==> rs[k] != nil && idOfElem(rs[k]) != 0
+//@ ensures [C10] old(q.current) == nil ==> q.current == nil && len(rs) == 0 && q.inflightDrained
+//@ ensures [C10] old(q.current) != nil && q.current != nil ==> q.current.$pos >= old(q.current.$pos)
+//@ ensures [C10] forall e *list.Element :: inList(q.l, e) && old(q.current) != nil && e.$pos >= old(q.current.$pos) && (q.current == nil || e.$pos < q.current.$pos) ==> idOf(e) != 0
+//@ ensures [C10] q.inflightDrained && !old(q.inflightDrained) && q.current != nil ==> idOf(q.current) == 0
+//@ ensures [C10] forall e *list.Element :: inList(q.l, e) ==> idOf(e) == old(idOf(e))
+//@ loop 1 invariant qOK(q) && q.l.$len == old(q.l.$len) && (forall e *list.Element :: inList(q.l, e) == old(inList(q.l, e))) && 0 <= i && len(rs) == i && (i == 0 || i <= length) && length <= int(maxSize) && q.inflightDrained == old(q.inflightDrained)
+//@ loop 1 invariant forall k int :: 0 <= k && k < len(rs) ==> rs[k] != nil && idOfElem(rs[k]) != 0
+//@ loop 1 invariant rs == nil || isfresh(rs)
+//@ loop 1 invariant old(q.current) != nil && (q.current != nil ==> q.current.$pos >= old(q.current.$pos))
+//@ loop 1 invariant forall e *list.Element :: inList(q.l, e) && e.$pos >= old(q.current.$pos) && (q.current == nil || e.$pos < q.current.$pos) ==> idOf(e) != 0
+//@ loop 1 invariant forall e *list.Element :: inList(q.l, e) ==> idOf(e) == old(idOf(e))
+
+// qDistinct(q): different list elements carry different *queue.Elem values, PUBLISH wrappers and messages
+// (every Add hands the queue a new element; established by the callers of Add).
+//@ spec func qDistinct(q *Queue) bool = forall e *list.Element, f *list.Element :: inList(q.l, e) && inList(q.l, f) && e != f ==> elemOf(e) != elemOf(f) && (isPub(e) && isPub(f) ==> pubOf(e) != pubOf(f) && pubOf(e).Message != pubOf(f).Message)
+
+// Read(pids): hands out queued messages from the cursor on. Everything handed out is a PUBLISH that is neither
+// expired at the time of the call (now() = the clock reading Read took) nor larger than the read limit; QoS > 0
+// messages get the supplied identifiers in order and stay in the list (in flight), QoS 0 messages leave the list;
+// expired / oversize messages are removed and reported dropped; at most len(pids) messages are handed out; the
+// queue gauge is told the true change of length and the in-flight gauge the number of identifiers used.
+//@ spec func expiredAt(x *queue.Elem, now time.Time) bool = x.Expiry != 0 && now > x.Expiry
+//@ spec func pubMsg(x *queue.Elem) *gmqtt.Message = x.MessageWithID.(*queue.Publish).Message
+//@ spec func handedOK(q *Queue, x *queue.Elem, now time.Time) bool = x != nil && x.MessageWithID.(type *queue.Publish) && x.MessageWithID.(*queue.Publish) != nil && pubMsg(x) != nil && msgBytes(pubMsg(x), q.version) <= q.readBytesLimit && (pubMsg(x).QoS == 0 ==> pubMsg(x).PacketID == 0 && !expiredAt(x, now)) && (pubMsg(x).QoS != 0 && q.inflightExpiry == 0 ==> !expiredAt(x, now)) && (pubMsg(x).QoS != 0 && q.inflightExpiry != 0 ==> x.Expiry == now + q.inflightExpiry)
+//@ spec func notInTail(q *Queue, x *queue.Elem) bool = forall f *list.Element :: inList(q.l, f) && q.current != nil && f.$pos >= q.current.$pos ==> elemOf(f) != x && pubOf(f).Message != pubMsg(x)
+
+//@ func (*Queue).Read
+//@ props C10 C12 C03 C13
+//@ let N = q.notifier
+//@ requires [C10] qOK(q) && q.inflightDrained && tailFresh(q) && qDistinct(q)
+//@ modifies q.current, ghost(q.l.$len), ghostall(list.Element.$owner), all(queue.Elem.Expiry), all(gmqtt.Message.PacketID), all(queue.Pubrel.PacketID), allelems(*queue.Elem), ghost(N.$queued), ghost(N.$inflight), ghost(N.$drops), ghost(N.$lastDrop), ghost(N.$lastErr)
+//@ ensures [C10] err == nil ==> qOK(q) && tailFresh(q) && qDistinct(q) && len(rs) <= len(pids)
+//@ ensures [C10] err == nil ==> N.$queued - old(N.$queued) == q.l.$len - old(q.l.$len) && q.l.$len <= old(q.l.$len)
+//@ ensures [C10 C12 C13] err == nil ==> (forall k int :: 0 <= k && k < len(rs) ==> handedOK(q, rs[k], now()))
+//@ ensures [C10] err == nil ==> N.$inflight >= old(N.$inflight) && N.$inflight - old(N.$inflight) <= len(rs)
+//@ ensures [C10] forall e *list.Element :: inList(q.l, e) ==> old(inList(q.l, e))
+//@ ensures [C10] err != nil ==> rs == nil && q.l.$len == old(q.l.$len)
+//@ call Publish.SetID#1 assert [C10 C03] 0 <= pflag && pflag < len(pids) && id == pids[pflag] && p == pub
+//@ loop 1 invariant qOK(q) && tailFresh(q) && qDistinct(q) && q.l.$len == old(q.l.$len) && (forall e *list.Element :: inList(q.l, e) == old(inList(q.l, e))) && N.$queued == old(N.$queued) && N.$inflight == old(N.$inflight)
+//@ loop 2 invariant qOK(q) && tailFresh(q) && qDistinct(q) && now == now() && N.$queued == old(N.$queued) && N.$inflight == old(N.$inflight)
+//@ loop 2 invariant 0 <= i && 0 <= pflag && pflag <= i && len(rs) <= i && pflag <= len(rs) && length <= len(pids) && (i == 0 || i <= length) && inflightDelta == pflag
+//@ loop 2 invariant msgQueueDelta == q.l.$len - old(q.l.$len) && msgQueueDelta <= 0
+//@ loop 2 invariant forall e *list.Element :: inList(q.l, e) ==> old(inList(q.l, e))
+//@ loop 2 invariant rs == nil || isfresh(rs)
+//@ loop 2 invariant forall k int :: 0 <= k && k < len(rs) ==> handedOK(q, rs[k], now) && notInTail(q, rs[k])
